@@ -12,7 +12,7 @@ import random
 import subprocess as _real_subprocess
 import tempfile
 
-from .core import InvalidSpec
+from .core import InvalidSpec, Violation
 
 EPOCH = 1_700_000_000.0
 INF = float("inf")
@@ -190,6 +190,8 @@ class SimPopen:
         self._err = ""
         self.tool_report = None
         self.communicates = 0
+        self.draining = False
+        self.blocked = False
         w.procs.append(self)
         rec.procs.append(self)
         if self.exit_at != INF:
@@ -202,6 +204,14 @@ class SimPopen:
         if self.state != "running":
             return
         w = SimPopen.world
+        if self.rec.script.get("big_output") and not self.draining:
+            # the program prints more than a pipe holds (64 KiB) before it exits: it sits in write() until somebody
+            # reads the pipe - poll() and wait() do not, communicate() does
+            if not self.blocked:
+                w.stats["sim:child-blocked-on-full-pipe"] += 1
+            self.blocked = True
+            return
+        self.blocked = False
         code, out, err, report = self.rec.tool(self)
         self._code, self._out, self._err, self.tool_report = code, out, err, report
         self.state = "exited"
@@ -229,9 +239,14 @@ class SimPopen:
         w = SimPopen.world
         w.fire_due()
         if self.state == "running":
-            if self.exit_at != INF and (timeout is None or self.exit_at - w.now <= timeout):
+            can_exit = self.exit_at != INF and (self.draining or not self.rec.script.get("big_output"))
+            if can_exit and (timeout is None or self.exit_at - w.now <= timeout):
                 w.block_until(self.exit_at)
             elif timeout is None:
+                if w.interrupt_at is None and self.exit_at != INF and self.rec.script.get("big_output"):
+                    # the code under test waits for a child that waits for its pipe to be read: neither will ever move.
+                    # The program would have exited; this deadlock is the wrapper's, not the spec's
+                    raise Violation("liveness:wait-on-child-blocked-on-full-pipe", {"kind": getattr(self.rec, "kind", None)})
                 if w.interrupt_at is None:
                     raise SimDeadlock("blocking wait on a child that never exits")
                 w.block_until(INF)
@@ -242,7 +257,13 @@ class SimPopen:
 
     def communicate(self, input=None, timeout=None):
         self.communicates += 1
-        self._wait(timeout)
+        self.draining = True
+        if self.blocked:
+            self._exit_event()  # the pipe is read now: the blocked program finishes its output and exits
+        try:
+            self._wait(timeout)
+        finally:
+            self.draining = False
         self.poll()
         if self.state == "killed":
             return "", ""
@@ -526,6 +547,8 @@ def _finish(proc, report, text_out=""):
     script = proc.rec.script
     code = script.get("exit", 0)
     err = script.get("stderr", "")
+    if script.get("big_output"):
+        err += "progress: " + "#" * 70000 + "\n"  # a chatty program: more than one pipe buffer on STDERR
     if code != 0:
         SimPopen.world.stats["fault:nonzero-exit"] += 1
     return code, text_out, err, report
